@@ -110,28 +110,56 @@ def tracking_open(path, mode="r", buffering=-1, *a, **k):
 
 
 sd.open = tracking_open
+touched = []
+_real_stat, _real_lstat, _real_os_open = os.stat, os.lstat, os.open
+
+
+def _touch(kind, real):
+    def f(path, *a, **k):
+        touched.append([kind, str(path)])
+        return real(path, *a, **k)
+    return f
+
+
+def route(via, dev, rw, ini):
+    if via == "init_device":
+        kw = {} if ini is None else {"initiator_name": ini}
+        return init_device(dev, read_write=rw, **kw)
+    if via == "SCSIDevice":
+        from pyscsi.pyscsi.scsi_device import SCSIDevice
+        return SCSIDevice(dev, rw)
+    from pyscsi.pyiscsi.iscsi_device import ISCSIDevice
+    return ISCSIDevice(dev, ini if ini is not None else default_ini)
+
+
 default_ini = "iqn.2018-01.org.pyscsi:%s" % socket.gethostname()
 DEVS = ["/dev/null", "/dev/zero", "/dev/", "/dev", "iscsi://h:3260/iqn.t/0", "iscsi://u%p@10.0.0.1/iqn.t/1",
         "iscsi:/", "", "dev/null", "file:///dev/null", "/devnull", "/dev-snap/x", "ISCSI://h/t/0", "/DEV/null",
-        "iscsi//h/t/0", " /dev/null"]
-for dev in DEVS:
+        "iscsi//h/t/0", " /dev/null", "iscsi:h/t/0", "iscsi:", "x://[1.2.3.4/y", "iser://h/t/0",
+        "/nonexistent-verif/sg0", "nonexistent-verif", "\\dev\\sg0"]
+# a node that does not exist: only where the request must be refused anyway (nothing may be looked at)
+MISSING = "/dev/nonexistent-verif-node"
+for via, dev in [(v, d) for v in ("init_device", "SCSIDevice", "ISCSIDevice") for d in DEVS + [MISSING]]:
+    if dev == MISSING and has_sgio and via != "ISCSIDevice":
+        continue
     for rw in (False, True):
         for ini in (None, "iqn.2005-03.org.example:initiator-7"):
             del opens[:]
+            del touched[:]
             fs.reset(None)
             fi.reset(None)
-            kw = {}
-            if ini is not None:
-                kw["initiator_name"] = ini
             exc, klass = "", ""
+            os.stat, os.lstat, os.open = _touch("stat", _real_stat), _touch("lstat", _real_lstat), _touch("os.open", _real_os_open)
             try:
-                d = init_device(dev, read_write=rw, **kw)
+                d = route(via, dev, rw, ini)
                 klass = type(d).__name__
             except Exception as ex:
                 exc = type(ex).__name__
+            finally:
+                os.stat, os.lstat, os.open = _real_stat, _real_lstat, _real_os_open
             urls = [x[1] for x in fi.LOG if x[0] == "URL"]
             ctxs = [x[1] for x in fi.LOG if x[0] == "Context"]
-            events.append({"ev": "init", "cfg": cfg, "dev": B(dev), "rw": rw, "ini": B(ini if ini is not None else default_ini),
+            events.append({"ev": "init", "via": via, "touched": len(touched) + len(opens), "cfg": cfg, "dev": B(dev), "rw": rw, "ini": B(ini if ini is not None else default_ini),
                            "default_ini": ini is None, "class": klass, "exc": exc, "opens": [list(o) for o in opens],
                            "connects": sum(1 for x in fi.LOG if x[0] == "connect"),
                            "url": B(urls[0]) if len(urls) == 1 else (B("#".join(urls)) if urls else []),
